@@ -104,7 +104,7 @@ func checkC02(run *h.Run) {
 				order = append(order, name)
 				serveToo := sp.Name == "P1"
 				st := runSweep(run, sp, func(w *worker, t rm.Table, p *rm.Parsed, st *sweepStats) {
-					b := rs.Build(t, rs.BuildOpt{Router: router, Switched: trace})
+					b := rs.Build(t, rs.BuildOpt{Router: router, Switched: trace, Reuse: sp.Name == "R2"})
 					if b.Panic != "" {
 						atomic.AddInt64(&st.buildPanics, 1)
 						run.Violate("construction-panic", "", fmt.Sprintf("building %v panics: %s", t, b.Panic),
@@ -127,15 +127,15 @@ func checkC02(run *h.Run) {
 							outcomes.Add(fmt.Sprintf("%d/%d/%v", o.Status, len(o.Invoked), o.Allow))
 						}
 						if why != "" {
-							rc := routingCase{Sweep: sp.Name, Router: router.String(), Table: t, Req: w.reqs[qi], Observed: o, Expected: an.Exps, Tier: run.Tier, Lite: trace && run.Tier == "quick", ReqIndex: qi, Switched: trace}
+							rc := routingCase{Sweep: sp.Name, Router: router.String(), Table: t, Req: w.reqs[qi], Observed: o, Expected: an.Exps, Tier: run.Tier, Lite: trace && run.Tier == "quick", ReqIndex: qi, Switched: trace, Reuse: sp.Name == "R2"}
 							qi := qi
 							run.ViolateH("outcome/"+router.String(), "", fmt.Sprintf("[%s trace=%v] %v ; %v : %s", router, trace, t, w.reqs[qi], why), rc, func() bool {
-								b2 := rs.Build(t, rs.BuildOpt{Router: router, Switched: trace})
+								b2 := rs.Build(t, rs.BuildOpt{Router: router, Switched: trace, Reuse: sp.Name == "R2"})
 								o2 := b2.Do(w.reqs[qi].HTTP(), h.NewRec(), false)
 								w2, _ := judgeC02(p, w.mreqs[qi], router, o2)
 								return w2 != ""
 							}, func() bool {
-								b3 := rs.Build(t, rs.BuildOpt{Router: router, Switched: trace})
+								b3 := rs.Build(t, rs.BuildOpt{Router: router, Switched: trace, Reuse: sp.Name == "R2"})
 								var o3 rs.Outcome
 								for k := 0; k <= qi; k++ {
 									o3 = b3.Do(w.reqs[k].HTTP(), h.NewRec(), false)
